@@ -41,9 +41,21 @@ def rlen(rng, big=600, lo=0, hi=None):
     return rng.randint(lo, m)
 
 
+MANY = 0.03
+MANY_COUNTS = (15, 16, 17, 31, 32, 33, 63, 64, 65, 100, 127, 128, 129, 255, 256, 257, 400)
+
+
+def nrecords(rng):
+    """number of records in one buffer / messages in one record: mostly a few, sometimes many"""
+    return rng.choice(MANY_COUNTS) if rng.random() < 2 * MANY else rng.choice((1, 2, 2, 3, 4, 6))
+
+
 def rcount(rng, lo=0, hi=40):
     """number of entries of a list: mostly 0..3, sometimes up to hi"""
     r = rng.random()
+    if r >= 1 - MANY:
+        # loops must also be driven far: counts around the powers of two an implementation might use as a limit
+        return max(lo, rng.choice(MANY_COUNTS))
     n = (0 if r < .12 else 1 if r < .45 else 2 if r < .65 else 3 if r < .8
          else rng.randint(4, 8) if r < .95 else rng.randint(9, max(9, hi)))
     return max(lo, min(n, hi))
@@ -629,7 +641,8 @@ def gen_record_payload(rng, w, ctype, big=600, hs_kind=None):
     elif ctype == 21:
         msgs = [gen_alert(rng, w) for _ in range(rlen(rng, min(big, 600), lo=1, hi=MAX_REC // 2))]
     elif ctype == 22:
-        msgs = [gen_hs_message(rng, w, hs_kind, big) for _ in range(rng.choice((1, 1, 1, 2, 2, 3, 4)))]
+        k = rng.choice(MANY_COUNTS) if rng.random() < MANY else rng.choice((1, 1, 1, 2, 2, 3, 4))
+        msgs = [gen_hs_message(rng, w, hs_kind, big if k < 8 else min(big, 6000 // k)) for _ in range(k)]
     elif ctype == 23:
         n = rng.choice((16383, 16384, 16385, MAX_REC - 1, MAX_REC)) if rng.random() < .05 else rlen(rng, big, hi=MAX_REC)
         msgs = [ctor('App', w.raw(rng.randbytes(n)))]
@@ -836,7 +849,8 @@ _fam('tls_header', _one_tls_header)
 
 def _one_tls_many(rng):
     w = Writer()
-    recs = [gen_plaintext_record(rng, w, None, 600) for _ in range(rng.choice((1, 2, 2, 3, 4, 6)))]
+    k = nrecords(rng)
+    recs = [gen_plaintext_record(rng, w, None, 600 if k < 8 else 6) for _ in range(k)]
     rem = _trail(rng, w, .4, 1, 4)            # fewer than 5 bytes cannot start another record
     return Case('', ['tls_many'], w.b, w.fields, lst(recs), rem, sd=False)
 
@@ -1090,7 +1104,8 @@ for _k in DTLS_HS_KINDS:
 
 def _one_dtls_records(rng):
     w = Writer()
-    recs = [gen_dtls_record(rng, w, None, 600) for _ in range(rng.choice((1, 2, 2, 3, 4, 6)))]
+    k = nrecords(rng)
+    recs = [gen_dtls_record(rng, w, None, 600 if k < 8 else 6) for _ in range(k)]
     rem = _trail(rng, w, .4, 1, 12)           # fewer than 13 bytes cannot start another record
     return Case('', ['dtls_records'], w.b, w.fields, lst(recs), rem, sd=False)
 
@@ -1177,8 +1192,9 @@ def corruptions(case, rng, limit=None):
     {0, 1, true-1, true+1, max of its width}, and the buffer cut at every length-field boundary
     (start of the field, start of its content, end of its content) -1/+0/+1.
     `limit` subsamples with rng."""
-    out, buf = [], case.buf
+    buf = case.buf
     fam = case.fam + '/corrupt'
+    todo = []                              # descriptors first; the (possibly large) mutants are built only for the sampled ones
     for off, width, kind, val in case.fields:
         if val is None:
             continue
@@ -1190,18 +1206,25 @@ def corruptions(case, rng, limit=None):
         for v in sorted(cand):
             if v == val or v < 0 or v > top:
                 continue
-            b = bytearray(buf)
-            b[off:off + width] = v.to_bytes(width, 'big')
-            out.append(Case(fam, case.op, b, case.fields, None, sd=False))
+            todo.append((off, width, v))
     cuts = set()
     for off, width, kind, val in case.fields:
         for p in (off, off + width, off + width + (val or 0)):
             cuts.update((p - 1, p, p + 1))
     for c in sorted(cuts):
         if 0 <= c < len(buf):
-            out.append(Case(case.fam + '/trunc', case.op, buf[:c], case.fields, None, sd=False))
-    if limit is not None and len(out) > limit:
-        out = rng.sample(out, limit)
+            todo.append((c,))
+    if limit is not None and len(todo) > limit:
+        todo = rng.sample(todo, limit)
+    out = []
+    for d in todo:
+        if len(d) == 3:
+            off, width, v = d
+            b = bytearray(buf)
+            b[off:off + width] = v.to_bytes(width, 'big')
+            out.append(Case(fam, case.op, b, [], None, sd=False))
+        else:
+            out.append(Case(case.fam + '/trunc', case.op, buf[:d[0]], [], None, sd=False))
     return out
 
 
